@@ -9,6 +9,7 @@ package c01
 
 import (
 	"container/heap"
+	"fmt"
 	"math/rand"
 	"sync"
 	"sync/atomic"
@@ -43,9 +44,9 @@ func (h envHeap) Less(i, j int) bool {
 
 	return h[i].at.Before(h[j].at)
 }
-func (h envHeap) Swap(i, j int)       { h[i], h[j] = h[j], h[i] }
-func (h *envHeap) Push(x any)         { *h = append(*h, x.(*queued)) }
-func (h *envHeap) Pop() any           { o := *h; n := len(o); x := o[n-1]; *h = o[:n-1]; return x }
+func (h envHeap) Swap(i, j int) { h[i], h[j] = h[j], h[i] }
+func (h *envHeap) Push(x any)   { *h = append(*h, x.(*queued)) }
+func (h *envHeap) Pop() any     { o := *h; n := len(o); x := o[n-1]; *h = o[:n-1]; return x }
 
 type netSched struct {
 	w   *world
@@ -68,11 +69,11 @@ type netSched struct {
 
 	log []*fakenet.Envelope // delivered envelopes, material for replays
 
-	flushing bool
-	wake     chan struct{}
-	quit     chan struct{}
-	done     chan struct{}
-	inflight atomic.Int64
+	flushing  bool
+	wake      chan struct{}
+	quit      chan struct{}
+	done      chan struct{}
+	inflight  atomic.Int64
 	pendingPS atomic.Int64 // partial-signature envelopes queued or being delivered
 
 	// stats
@@ -113,6 +114,13 @@ func newNetSched(w *world, rng *rand.Rand) *netSched {
 	go s.run()
 
 	return s
+}
+
+func (s *netSched) kickLocked() {
+	select {
+	case s.wake <- struct{}{}:
+	default:
+	}
 }
 
 func (s *netSched) kick() {
@@ -206,7 +214,7 @@ func (s *netSched) run() {
 				s.dups++
 			}
 			s.delivered++
-			if len(s.log) < 600 {
+			if len(s.log) < 600 && !it.dup {
 				s.log = append(s.log, it.env)
 			}
 			s.inflight.Add(1)
@@ -242,7 +250,7 @@ func (s *netSched) flush(keep bool) {
 	s.flushing = true
 	s.mu.Unlock()
 	s.kick()
-	for i := 0; i < 1500; i++ {
+	for i := 0; i < 300; i++ {
 		if s.pendingPS.Load() == 0 {
 			time.Sleep(2 * time.Millisecond)
 			if s.pendingPS.Load() == 0 {
@@ -252,6 +260,12 @@ func (s *netSched) flush(keep bool) {
 		time.Sleep(3 * time.Millisecond)
 		s.kick()
 	}
+	if v := s.pendingPS.Load(); v != 0 {
+		s.mu.Lock()
+		ql := s.q.Len()
+		s.mu.Unlock()
+		s.w.r.Seen("pacing_flush_gave_up", fmt.Sprintf("pending=%d queue=%d inflight=%d", v, ql, s.inflight.Load()))
+	}
 	if !keep {
 		s.mu.Lock()
 		s.flushing = false
@@ -259,30 +273,26 @@ func (s *netSched) flush(keep bool) {
 	}
 }
 
-// replay delivers copies of up to k already delivered envelopes again (duplicates / late replays).
+// replay queues copies of up to k already delivered envelopes for another delivery (duplicates /
+// late replays). Deliveries stay asynchronous: the consensus handler blocks for its receive timeout
+// once the per-duty buffer of a finished instance is full.
 func (s *netSched) replay(rng *rand.Rand, k int) int {
 	s.mu.Lock()
-	logCopy := append([]*fakenet.Envelope(nil), s.log...)
-	s.mu.Unlock()
-	if len(logCopy) == 0 {
+	defer s.mu.Unlock()
+	if len(s.log) == 0 {
 		return 0
 	}
 	n := 0
+	now := time.Now()
 	for i := 0; i < k; i++ {
-		e := logCopy[rng.Intn(len(logCopy))]
-		s.mu.Lock()
-		gone := s.crashed[e.From] || s.crashed[e.To]
-		if !gone {
-			s.dups++
-			s.delivered++
-		}
-		s.mu.Unlock()
-		if gone {
+		e := s.log[rng.Intn(len(s.log))]
+		if s.crashed[e.From] || s.crashed[e.To] {
 			continue
 		}
-		s.w.net.Deliver(e.Clone())
+		s.push(now, e.Clone(), true)
 		n++
 	}
+	s.kickLocked()
 
 	return n
 }
